@@ -2,12 +2,14 @@
 import json as _json
 
 GOSSIPSIM_STUB = {
-    "discovery.AuthenticatedGossiper (ProcessRemoteAnnouncement, validation barrier, reject cache, ban manager, premature/future-height buffering, trickle/broadcast batching)": "real, inside a testing/synctest bubble",
+    "discovery.AuthenticatedGossiper (ProcessRemoteAnnouncement, validation barrier, reject cache, ban manager, premature/future-height buffering, trickle/broadcast batching; in the own-channels arm also ProcessLocalAnnouncement, handleAnnSig with the waiting-proof store (channeldb.WaitingProofStore on a SimKV file), the reliable sender with its message store, retransmission of the node's own stale announcements)": "real, inside a testing/synctest bubble",
+    "funding manager (addToGraph / announceChannel), the remote endpoint of the node's own channels, NotifyWhenOnline/NotifyWhenOffline, FindChannel": "simulator: it hands over the proof-less local channel_announcement (with capacity and channel point), local channel_update and the local announcement_signatures, signs the remote half with the remote node and bitcoin keys it owns, connects/disconnects the channel peer",
     "netann / lnwire validation (ValidateChannelAnn, ValidateChannelUpdateAnn, ValidateNodeAnn), lnwallet/chanvalidate": "real",
     "graph.Builder (funding-output validation, staleness checks, pruning on spends) and graph/db ChannelGraph + graph cache": "real; KV store on a SimKV bbolt file (write failures injected in one arm), sqlite store in one arm",
     "chain (GetUtxo, GetBlock, block epochs, filtered chain view)": "simulator chain: funding outputs existing / missing / spent / wrong script / wrong amount; spends only when the tape says so",
-    "peers, sync managers' remote side, message signer for own announcements": "simulator stubs (1-3 peers; every message a peer is sent is recorded as 'relayed')",
+    "peers, sync managers' remote side, message signer for own announcements": "simulator stubs (1-3 gossip peers plus one peer per remote endpoint of an own channel; every message a peer is sent is recorded as 'relayed')",
     "independent reading of gossip messages": "simulator parses raw BOLT-7 wire bytes, double-SHA256 of the signed part, btcec signature verification; nothing in the oracle calls lnwire or netann",
+    "graph/db.KVStore under concurrent callers (store-race arm, 1 run in 16)": "real KVStore (reject cache, channel cache, batch scheduler with its cacheMu locker) on a SimKV bbolt file, OUTSIDE the bubble: 2-3 real caller goroutines (HasChannelEdge, UpdateEdgePolicy, AddChannelEdge, DeleteChannelEdges, MarkEdgeLive, FilterKnownChanIDs, ChanUpdatesInHorizon) parked at the entry and exit of every database transaction and released one at a time by the tape; whether a released goroutine reached its next point, finished or waits for a lock is read from the runtime's goroutine states (runtime.Stack), not from a timeout; the gossiper and builder are not part of this arm",
     "gossip v2, the real peer/brontide stack, historical sync (gossip_timestamp_filter back-fill is exercised, query_channel_range is not)": "not simulated",
 }
 GOSSIPSIM_ASSUME = [
@@ -16,37 +18,55 @@ GOSSIPSIM_ASSUME = [
     "pruning timers are out of reach of the fake clock except in the aging arm (zombie-prune ticker at 15 days, one or two long sleeps per run); the chain view reports spends only when the tape says so, so every non-gossip cause of a graph change is known to the simulator",
     "BOLT-7 ascending node-id order of a channel announcement is judged only with GOSSIPSIM_STRICT_NODE_ORDER=1 (the property does not state it)",
     "a channel whose two node ids are equal is itself recorded as a finding (sqlite store only); everything that follows from it in that run is attributed to it",
+    "own-channels arm: the funding manager is a stub that only ever hands over well-formed local messages (our half is correctly signed); a proof-less channel may enter the graph only from such a hand-over; an update the node signs itself for its own direction (retransmission) is judged like gossip (signed by the node's key, newer, consistent); whether our announcement_signatures is sent again at a later reconnect depends on a race inside the node and is neither logged nor counted; node restart with a non-empty waiting-proof/message store is not exercised",
     "bbolt / sqlite atomicity; a clean batch is evidence, not proof",
 ]
 
 CHECK = {
     "C20": dict(
         bin="run_gossipsim", build="gotest", pkg="run_gossipsim", level="exploration",
-        quick=dict(runs=12000, wall=90), thorough=dict(runs=500000, wall=1500),
+        quick=dict(runs=10000, wall=80), thorough=dict(runs=500000, wall=1500),
         rule="one evaluation = one seeded run over a universe of 3-5 node keys and 2-4 channels whose funding outputs exist / are missing / spent / pay to "
              "another script / have another amount: 40-90 deliveries of validly signed channel_announcement, channel_update (both directions; older, "
              "equal, newer timestamps; disabled; inconsistent max-htlc/flags) and node_announcement messages, re-signed semantic variants (swapped key, "
              "wrong-direction signer, scid of another channel, other chain hash) and wire-level corruptions (one byte flipped anywhere, signature swapped, "
              "extra TLV data), in any order, duplicated, from 1-3 peers, updates before their channel, after the funding output was spent; fake-time advance "
              "across rate-limit/trickle intervals, block connects, timestamp-filter changes; arms: sequential, concurrent bursts, graph-DB write failures, "
-             "sqlite store. After every delivery (to quiescence) the graph projection (channels with keys/capacity/outpoint, both policies with timestamps, "
+             "sqlite store, own-channels (2 runs in 16, a quarter of them on sqlite: the node itself is an endpoint of 1-2 further channels; the funding manager hands "
+             "over the local announcement without proof, the local update and - for channels to be announced - our announcement_signatures; the remote half arrives "
+             "before the channel is known / before / after ours / after the proof is complete, valid or with a wrong node signature, wrong bitcoin signature, the two "
+             "swapped, naming another scid, signing another digest, one bit flipped, our own half reflected, or from a peer that is no party to the channel, repeatedly; "
+             "the channel peer is offline when our half is due and connects later; proofs premature by up to two blocks). After every delivery (to quiescence) the graph projection (channels with keys/capacity/outpoint, both policies with timestamps, "
              "nodes) and the path-finding cache are diffed against the previous one and every change must be justified by a delivered authentic and fresh "
-             "message; every message sent to a peer must be one that was accepted. non-trivial = at least one channel entered the graph and at least one "
+             "message; every message sent to a peer must be one that was accepted; a channel_announcement the node assembled itself must carry four signatures that verify, "
+             "both as read back from the graph and as sent to any peer. Store-race arm (1 run in 16): 2-3 caller goroutines run 1-3 graph-store calls each against "
+             "2-3 channels with reject/channel caches of 1, 2 or 50 entries, warm or cold; every switch between them happens at the entry or exit of a database "
+             "transaction and is chosen by the tape; afterwards the live store's HasChannelEdge answer (existence, zombie flag, both last-update times - what every freshness "
+             "check compares an incoming update with) must equal the answer of a fresh store opened on the same file. non-trivial = at least one channel entered the graph and at least one "
              "corrupted or stale message was delivered afterwards; distinct = distinct event-trace hash",
         states_measure="distinct (channels in graph, policies set, nodes announced, buffered premature messages, banned peers) tuples",
-        expected_probes=["fault_wire_corruption", "fault_funding_spent", "fault_db_write_failed", "fault_long_sleep_past_prune_interval", "probe_zombie_channel_resurrected", "probe_buffered_update_applied_later",
+        expected_probes=["race_schedule_choices", "race_coherence_checks", "probe_race_goroutine_waited_for_a_lock", "probe_race_batch_runner_goroutines", "fault_wire_corruption", "fault_funding_spent", "fault_db_write_failed", "fault_long_sleep_past_prune_interval", "probe_zombie_channel_resurrected", "probe_buffered_update_applied_later",
                          "probe_buffered_announcement_applied_later", "probe_future_height_msg_buffered", "probe_peer_disconnected_by_ban",
-                         "graph_chan_added", "graph_policy_replaced", "graph_node_applied", "relayed_chan_ann", "relayed_chan_update", "relayed_node_ann"],
+                         "graph_chan_added", "graph_policy_replaced", "graph_node_applied", "relayed_chan_ann", "relayed_chan_update", "relayed_node_ann",
+                         "graph_own_chan_added", "graph_own_proof_added", "relayed_own_chan_ann", "probe_own_proof_completed_by_local_half",
+                         "probe_own_proof_completed_by_remote_half", "probe_own_proof_completed_when_mature", "probe_remote_half_before_channel_known",
+                         "probe_remote_half_before_local_half", "probe_remote_half_after_proof_complete", "probe_annsig_premature_buffered",
+                         "probe_local_half_sent_after_peer_came_online", "probe_own_update_resigned_by_node", "fault_chan_peer_offline",
+                         "fault_local_half_while_peer_offline", "fault_remote_half_wrong_node_sig", "fault_remote_half_wrong_bitcoin_sig",
+                         "fault_remote_half_sigs_swapped", "fault_remote_half_other_scid", "fault_remote_half_other_digest",
+                         "fault_remote_half_sig_bit_flipped", "fault_remote_half_reflected", "fault_remote_half_from_non_party"],
         real_vs_stub=GOSSIPSIM_STUB, assumptions=GOSSIPSIM_ASSUME,
         simulated_time="fake clock of the synctest bubble (trickle delay, rate-limit intervals) advanced by tape-chosen steps; block height is a simulator variable",
         determinism="actor engine in a synctest bubble, one delivery at a time to quiescence in the sequential arms (exact replay measured by the self-test with "
-                    "GOSSIPSIM_NO_CONCURRENT=1); the concurrent arm releases several deliveries at once (seam-deterministic, oracles schedule independent)",
+                    "GOSSIPSIM_NO_CONCURRENT=1); the concurrent arm releases several deliveries at once (seam-deterministic, oracles schedule independent); the store-race arm runs real goroutines released one at a time at database-boundary "
+                    "points (who runs next is the tape's choice; what a goroutine that was woken by a lock release does until its next point is the runtime's: seam-deterministic, "
+                    "the coherence oracle is schedule independent)",
     ),
 }
 
 ENGINE = {"name": "gossipsim", "path": "/verif/sim/gossipsim", "serves_properties": ["C20"],
           "kind_free_text": "real AuthenticatedGossiper + graph.Builder + graph DB (bbolt on SimKV / sqlite) + graph cache inside a synctest bubble; simulated peers and chain; "
-                            "valid, re-signed-variant and byte-corrupted gossip in any order with duplicates; independent BOLT-7 byte-level authenticity oracle; "
+                            "valid, re-signed-variant and byte-corrupted gossip in any order with duplicates; own channels whose announcement the node assembles from two announcement_signatures halves (funding manager and remote endpoint simulated); independent BOLT-7 byte-level authenticity oracle; "
                             "every graph change and every relayed message must be justified"}
 
 TEXT = {
@@ -57,7 +77,7 @@ TEXT = {
                            "unspent and pays to the 2-of-2 of the announced bitcoin keys, stored with the chain's capacity/outpoint; a stored channel is immutable and leaves only when "
                            "its funding output is spent. A policy may change only to a delivered update for that channel and direction signed by the owner of that direction, "
                            "with consistent fields and a timestamp strictly newer than the stored one. A node entry may change only to a delivered announcement signed by that "
-                           "node, strictly newer, while the node has a known channel. The path-finding cache must equal the database. In the aging arm (3 runs in 16) the zombie-prune ticker is within reach of the fake clock: a channel may leave with an unspent funding output exactly when its policies are older than the prune horizon (both, or either under strict zombie pruning) and may come back only after a channel_update with a timestamp inside the horizon, signed by the owner of its direction, was delivered. Everything sent to a peer must be a message that "
+                           "node, strictly newer, while the node has a known channel. The path-finding cache must equal the database. In the own-channels arm (2 runs in 16) the node is itself an endpoint of 1-2 channels: such a channel may enter without proof only with the fields the funding manager handed over and a sound funding output; it may later acquire a proof only if the funding manager handed over our half and all four signatures of the announcement the graph then reconstructs verify under the stated keys (checked on the raw bytes); every channel_announcement the node assembles and sends (broadcast, or to the channel peer) must verify likewise; an invalid remote half therefore never changes the projection and nothing is sent because of it. In the aging arm (3 runs in 16) the zombie-prune ticker is within reach of the fake clock: a channel may leave with an unspent funding output exactly when its policies are older than the prune horizon (both, or either under strict zombie pruning) and may come back only after a channel_update with a timestamp inside the horizon, signed by the owner of its direction, was delivered. Everything sent to a peer must be a message that "
                            "was delivered, authentic, accepted and not stale at every one of its deliveries. Exploration is the right level: message space and orders are unbounded.",
                 level_note="Trusted: btcec ECDSA; the simulator's 150-line BOLT-7 byte parser; synctest quiescence. One-directional oracle (drops are legal). Gossip v2 is not enabled in this "
                            "tree's gossiper path and is not exercised. One genuine defect found by the aging arm was fixed in lnd (87dc739: wrong key stored in the zombie index under strict pruning; regress/C20-strict-zombie-wrong-signer-resurrects.json). The zombie-resurrection rule comes from lnd's documented zombie handling, not from C20's wording (DESIGN.md section 11). Known finding (open, sqlite store only): channel announcement with node_id_1 == node_id_2 accepted, one update "
